@@ -515,6 +515,58 @@ def rule_reserve_post(ctx, rule="C11-reserve"):
                 found_b = True
     ctx.need(rule, b.path, "fast-path-a", found_a, "no block of reserve is guarded by `capacity >= len + additional` (the no-reallocation promise has no code path)")
     ctx.need(rule, b.path, "fast-path-b", found_b, "no allocation-free block of reserve is guarded by inline `len + additional <= MAX_INLINE_SIZE`", how="inline within the limit: a block with no allocation and no reassignment")
+    # Ok => capacity >= len + additional, as a must-pass-through rule: every path from the entry to a
+    # block that builds Ok(()) crosses an edge that establishes the room (capacity >= needed on a
+    # heap buffer; needed <= MAX_INLINE_SIZE on a buffer that is not on the heap) or a call that
+    # makes it (realloc / with_additional / a conversion, whose amounts have their own rules)
+    from guards import edge_fact
+    for hb, sub in inlined_bodies(b):
+        oks = [bb for bb, blk in enumerate(hb.blocks) for st in blk["stmts"]
+               if st["k"] == "assign" and st["rv"]["k"] == "aggregate" and st["rv"].get("adt") == "core::result::Result" and st["rv"].get("variant_name") == "Ok"]
+        if not oks:
+            continue
+
+        def makes_room(t):
+            k = t.get("local_key")
+            return (k and cg.may_allocate(k)) or callee_name(t) in ALLOC_SITES or callee_name(t) == "repr::inline_buffer::InlineBuffer::new"
+
+        def sufficient(sb, lab):
+            f = edge_fact(hb, sb, lab)
+            if not f:
+                return False
+            if f[0] == "cmp2":
+                x, y = describe(hb, f[2], 0, sub), describe(hb, f[3], 0, sub)
+                return (f[1] == "Ge" and "HeapBuffer::capacity(" in x and NEED in y) or (f[1] == "Le" and "HeapBuffer::capacity(" in y and NEED in x)
+            if f[0] == "cmp" and (f[2], f[3]) == (0, 0) and describe(hb, f[1], 0, sub) == "p2":
+                return True      # additional == 0: every buffer holds its own text
+            if f[0] == "cmp" and f[2] is None and f[3] is not None and f[3] <= M and NEED in describe(hb, f[1], 0, sub):
+                # the inline capacity is only what a buffer that is NOT on the heap has
+                gs = described_guards(hb, sb, sub)
+                return not any(g[0] == "pred" and g[1] == "repr::Repr::is_heap_buffer" and g[3] is True for g in gs) and not (hb is not b and any("HeapBuffer" in (hb.local_ty(i) or "") for i in range(1, hb.arg_count + 1)))
+            return False
+        seen, work, par = {0}, [0], {}
+        while work:
+            x = work.pop()
+            t = hb.term(x)
+            if t["k"] == "call" and makes_room(t):
+                continue
+            for (y, lab) in hb.succ(x, unwind=False):
+                if isinstance(lab, tuple) and sufficient(x, lab[1]):
+                    continue
+                if y not in seen:
+                    seen.add(y)
+                    par[y] = x
+                    work.append(y)
+        for bb in oks:
+            path = []
+            if bb in seen:
+                x = bb
+                while x in par and len(path) < 40:
+                    x = par[x]
+                    if hb.term(x)["k"] == "switch":
+                        path.append("bb%d(line %s)" % (x, hb.term(x).get("line")))
+            ctx.ob(rule, b.path, "Ok=>room:%s" % (hb.path.rsplit("::", 1)[-1]), bb not in seen, line=hb.line(bb), how="every path to Ok(()) crosses `capacity >= needed`, inline `needed <= %d`, or a call that makes the room" % M,
+                   detail="reserve can return Ok(()) along a path that neither establishes capacity >= len + additional nor grows the buffer (branches taken: %s): the caller then writes len + additional bytes into a smaller block" % " <- ".join(path[:6]))
     # inline results (capacity MAX_INLINE_SIZE) are produced only when len + additional fits
     for st in inlined_sites(b, lambda nm: nm == "repr::inline_buffer::InlineBuffer::new"):
         ok = any(g[0] == "cmp" and g[3] == M and g[2] is None and NEED in g[1] for g in st.guards())
@@ -583,7 +635,7 @@ def rule_size_hint_use(ctx, rule="C11-hint"):
                 ok = re.match(r"^core::iter::traits::iterator::Iterator::size_hint\(.*\)\.0$", a) is not None
                 ctx.ob(rule, path, "reserves-lower-bound:" + callee_name(t).rsplit("::", 1)[1], ok, line=t.get("line", 0), how="reserves size_hint().0",
                        detail="%s pre-reserves %s: not the lower bound of the size hint" % (path, a))
-    ctx.need(rule, "crate", "sites", n >= 2, "only %d size_hint-driven reservations found" % n, how="%d size_hint-driven reservations" % n)
+    ctx.need(rule, "crate", "sites", n >= 1, "only %d size_hint-driven reservations found" % n, how="%d size_hint-driven reservations" % n)
 
 
 def rule_slot_decision(ctx, rule="LAYOUT"):
